@@ -33,10 +33,27 @@ Theorem C25_track_reply_newer : forall keep gx s k fresh s' ps k' v,
 Proof. exact track_push_newer. Qed.
 Print Assumptions C25_track_reply_newer.
 
+(* (re-)track with a version the client obtained elsewhere - ahead of, equal to or behind what this
+   node delivered: the reply only carries a newer payload, and unless the reply itself carried the
+   payload the key is NOT delta-ready afterwards (the next update is sent in full: the node never
+   delivered the payload of the claimed version to this client) *)
+Theorem C25_retrack_reply_newer : forall keep gx s k cv s' ps k' v,
+  step keep gx s (ATrackV k cv) = (s', ps) -> In (PFull k' v) ps ->
+  k' = k /\ cv < v /\ s_conn s' k = Some (mkKs v true) /\ s_held s' k = Some v.
+Proof. exact trackv_push_newer. Qed.
+Print Assumptions C25_retrack_reply_newer.
+
+Theorem C25_retrack_not_delta_ready : forall keep gx s k cv s' ps ks,
+  step keep gx s (ATrackV k cv) = (s', ps) -> s_sub s = true -> s_conn s' k = Some ks ->
+  (ps = [] /\ ks = mkKs cv false /\ s_held s' k = s_held s k) \/
+  (exists v, ps = [PFull k v] /\ cv < v /\ ks = mkKs v true /\ s_held s' k = Some v).
+Proof. exact trackv_not_ready. Qed.
+Print Assumptions C25_retrack_not_delta_ready.
+
 (* key updates are only pushed by a delivery or inside a track reply *)
 Theorem C25_push_sources : forall keep gx s a s' ps k v,
   step keep gx s a = (s', ps) -> (In (PFull k v) ps \/ exists base, In (PDelta k v base) ps) ->
-  (exists i dp1, a = ADeliver i dp1) \/ (exists fresh, a = ATrack k fresh).
+  (exists i dp1, a = ADeliver i dp1) \/ (exists fresh, a = ATrack k fresh) \/ (exists cv, a = ATrackV k cv).
 Proof. exact push_sources. Qed.
 Print Assumptions C25_push_sources.
 
